@@ -1,0 +1,58 @@
+//go:build verif
+
+// Contracts for the deductive verifier in /verif (comment-only file; compiled
+// only with -tags verif and declares nothing).
+
+package types
+
+//@ # ---------------------------------------------------------------- C16 ---
+//@ # Every implementation of Type.Equal must decide LLVM type identity (teq, specs/llvm_types.spec).
+//@ func iface Type.Equal
+//@   ensures result == teq(self, u)
+
+//@ func (*VoidType).Equal
+//@   props C16
+//@   requires t != nil
+//@   ensures unfold(boxed(t)) ==> result == teq(boxed(t), u)
+//@ func (*MMXType).Equal
+//@   props C16
+//@   requires t != nil
+//@   ensures unfold(boxed(t)) ==> result == teq(boxed(t), u)
+//@ func (*LabelType).Equal
+//@   props C16
+//@   requires t != nil
+//@   ensures unfold(boxed(t)) ==> result == teq(boxed(t), u)
+//@ func (*TokenType).Equal
+//@   props C16
+//@   requires t != nil
+//@   ensures unfold(boxed(t)) ==> result == teq(boxed(t), u)
+//@ func (*MetadataType).Equal
+//@   props C16
+//@   requires t != nil
+//@   ensures unfold(boxed(t)) ==> result == teq(boxed(t), u)
+//@ func (*IntType).Equal
+//@   props C16
+//@   requires t != nil
+//@   ensures unfold(boxed(t)) ==> result == teq(boxed(t), u)
+//@ func (*FloatType).Equal
+//@   props C16
+//@   requires t != nil
+//@   ensures unfold(boxed(t)) ==> result == teq(boxed(t), u)
+//@ func (*VectorType).Equal
+//@   props C16
+//@   requires t != nil && t.ElemType != nil
+//@   ensures unfold(boxed(t)) ==> result == teq(boxed(t), u)
+//@ func (*ArrayType).Equal
+//@   props C16
+//@   requires t != nil && t.ElemType != nil
+//@   ensures unfold(boxed(t)) ==> result == teq(boxed(t), u)
+//@ func (*FuncType).Equal
+//@   props C16
+//@   requires t != nil && t.RetType != nil && forall(k, 0, len(t.Params), t.Params[k] != nil)
+//@   ensures unfold(boxed(t)) ==> result == teq(boxed(t), u)
+//@   loop 0: invariant 0 <= i && i <= len(t.Params) && len(t.Params) == len(u.Params) && forall(k, 0, i, teq(t.Params[k], u.Params[k]))
+//@ func (*StructType).Equal
+//@   props C16
+//@   requires t != nil && forall(k, 0, len(t.Fields), t.Fields[k] != nil)
+//@   ensures unfold(boxed(t)) ==> result == teq(boxed(t), u)
+//@   loop 0: invariant 0 <= i && i <= len(t.Fields) && len(t.Fields) == len(u.Fields) && forall(k, 0, i, teq(t.Fields[k], u.Fields[k]))
